@@ -11,6 +11,7 @@ import z3
 from .common import *
 from .seg import ev_fields, same_value
 from symlomond.symdata import items_of, eq_items
+from symlomond import symdata
 from symlomond.hconn import Abandon
 
 ENDINGS = ['eof', 'error', 'handshake-cut', 'rejected', 'connect-fail', 'close-pending', 'abandon', 'compressed-then-eof']
@@ -98,6 +99,18 @@ def run_reuse(c, P):
         # connection 1 stops inside the second compressed message
         w.scripts[0] = Script(hconn.server_stream([0xC1, len(m1)] + list(m1) + [0xC1, len(m2)] + list(m2)[:3] + s1, extra=ext), end='eof')
     ws = L.WebSocket('ws://example.com/', compress=compress)
+    sent_c = {1: [], 2: [], 'fresh': []}
+    if ending == 'compressed-then-eof':
+        def mk_sender(tag):
+            def app(idx, ev, ws_, gen):
+                if ev.name == 'ready':
+                    # two compressed sends per connection (context takeover: the second depends on the first)
+                    for j in range(2):
+                        pay = [0x41, 0x41, 0x41, 0x41 + j] if c.concrete is not None else [c.byte('cs_%s_%d' % (tag, j)), 0x41, 0x41]
+                        ws_.send_binary(symdata.mk_bytes(pay))
+                        sent_c[tag].append(pay)
+            return app
+        app1 = mk_sender(1)
     rec1 = hconn.drive(w, ws, ck, app1)
     if getattr(rec1, 'abandoned', False) and rec1.gen is not None:
         rec1.gen.close()
@@ -110,7 +123,11 @@ def run_reuse(c, P):
     w.scripts[idx2] = Script(hconn.server_stream(s2, extra=ext), end='eof')
     state_at_connecting = {}
 
+    sender2 = mk_sender(2) if ending == 'compressed-then-eof' else None
+
     def app2(idx, ev, ws_, gen):
+        if sender2 is not None:
+            sender2(idx, ev, ws_, gen)
         if ev.name == 'connecting':
             state_at_connecting.update(closing=ws_.is_closing, closed=ws_.is_closed, sct=ws_.sent_close_time,
                                        comp=ws_.supports_compression, active=ws_.is_active)
@@ -120,7 +137,7 @@ def run_reuse(c, P):
     wb = new_world()
     wb.default_script = Script(hconn.server_stream(s2, extra=ext), end='eof')
     fresh = L.WebSocket('ws://example.com/', compress=compress)
-    recf = hconn.drive(wb, fresh, ck)
+    recf = hconn.drive(wb, fresh, ck, mk_sender('fresh') if ending == 'compressed-then-eof' else None)
     World.cur = w
     c.notes['scenario'] = dict(ending=ending, conn1=rec1.names(), conn2=rec2.names(), fresh=recf.names())
     # ---------------- obligations
@@ -143,7 +160,24 @@ def run_reuse(c, P):
             if ka == 'response.raw':
                 continue
             same_value(c, va, vb, 'C17: %s.%s of event %d differs between the reconnect and a fresh object' % (ea.name, ka, i))
-    if sock2 is not None:
+    if sock2 is not None and ending == 'compressed-then-eof':
+        # the peer of connection 2 is a NEW server: its inflater starts without history and must restore what the
+        # reused object sends (a compressor carried over from connection 1 would refer to history the peer never saw)
+        from .deflate import RefPeerInflater
+        infl = RefPeerInflater(c, 15, False)
+        comp_frames = [f for f in frames_of(c, w, sock2.id) if f[0] == 2]
+        if len(comp_frames) != len(sent_c[2]):
+            c.fail('C17: reconnect wrote %d data frames for %d sends' % (len(comp_frames), len(sent_c[2])))
+        for f, pay in zip(comp_frames, sent_c[2]):
+            if not f[2]:
+                c.fail('C17: reconnect sent uncompressed although compression was negotiated again')
+            try:
+                got = infl.inflate(f[3])
+            except ValueError as e:
+                c.fail('C17: a new peer cannot inflate what the reused object sends on its second connection: %s' % e,
+                       sig='C17: compression context carried over to the next connection')
+            c.prove(eq_items(got, pay), 'C17: message of the second connection inflates to different content')
+    elif sock2 is not None:
         fa = frames_of(c, w, sock2.id)
         fb = frames_of(c, wb, 0)
         if len(fa) != len(fb):
